@@ -46,6 +46,8 @@ from .. import ebd as vebd
 from ..ref import install_model as M
 from . import c33 as H33
 
+H33._reset_signal_handlers()
+
 ID = "C32"
 TITLE = "Every IPC helper request gets exactly one truthful reply"
 LEVEL = "fault_enumeration"
@@ -161,7 +163,10 @@ def optline(req, eapi):
 
 
 def _ext_words(env, key):
-    return set(env.get(key, "").split())
+    w = set(env.get(key, "").split())
+    if "--strip-program=true" in w:
+        w.discard("-s")  # stripping with a no-op strip program succeeds
+    return w
 
 
 def expectation(req, eapi, W, ED, before):
@@ -326,7 +331,8 @@ def internal_bucket(case, idx, exc, fault, failed_before):
     cn = type(cause).__name__
     if fault is not None and fault.hit and isinstance(cause, OSError):
         return f"unhandled-oserror:{h}:{fault.spec['fn']}", f"injected {fault.spec} escaped as IpcInternalError ({cause})"
-    if isinstance(cause, StopIteration) and failed_before:
+    dead = isinstance(cause, StopIteration) or (isinstance(cause, RuntimeError) and "StopIteration" in str(cause))
+    if dead and failed_before:
         return "internal-failure:StopIteration:after-failed-request", \
             f"request #{idx} ({h}) after an earlier failed request: IpcInternalError from StopIteration (helper state is dead)"
     return f"internal-failure:{h}:{cn}", f"request #{idx}: IpcInternalError from {cn}: {cause}"
@@ -391,6 +397,10 @@ def run_inproc(ctx, case):
             if code is None:
                 return
             ok = code == 0
+            if not ok and not req["nonfatal"]:
+                ctx.violation(f"fatal-failure-not-raised:{h}", case,
+                              f"request #{idx} is fatal and failed ({fe.out[0]!r}) but no IpcCommandError was raised: "
+                              f"the build would go on")
             judge(ctx, case, idx, w, status, entries, external, flt, ok, code, msg, h in failed_helpers)
             if not ok:
                 failed_helpers.add(h)
@@ -469,20 +479,23 @@ def run_phase_layer(ctx, case):
             ctx.violation(f"phase:internal-failure:{type(raised).__name__}", case,
                           f"build aborted by internal error {raised!r} at request #{last}")
             return
-        if stop_at is not None:
-            if raised is None:
+        if raised is None:
+            if stop_at is not None:
                 ctx.violation(f"phase:fatal-failure-did-not-fail-build:{case['requests'][stop_at]['helper']}", case,
                               f"request #{stop_at} is fatal and must fail, run_generic_phase returned {ret!r}")
-            elif last != stop_at:
-                if last < stop_at and proc.expect[last][0] == "ok":
-                    ctx.violation(f"phase:build-failed-on-valid-request:{case['requests'][last]['helper']}", case,
-                                  f"request #{last} is valid, build failed with {raised!r}")
-            elif codes[last] == 0:
+        elif last == stop_at:
+            if codes[last] == 0:
                 ctx.violation("phase:build-failed-with-success-reply", case, f"reply {proc.out[last]!r}, raised {raised!r}")
-        else:
-            if raised is not None and all(e[0] == "ok" for e in proc.expect[:n]):
-                ctx.violation(f"phase:build-failed-on-valid-request:{case['requests'][last]['helper']}", case,
-                              f"all requests valid, build failed at #{last} with {type(raised).__name__}: {raised}")
+        elif last >= 0:
+            st_, _, external = proc.expect[last]
+            h = case["requests"][last]["helper"]
+            ext = ":external-install" if external else ""
+            if st_ == "ok":
+                ctx.violation(f"phase:build-failed-on-valid-request:{h}{ext}", case,
+                              f"request #{last} is valid, build failed with {type(raised).__name__}: {raised}; reply {proc.out[last]!r}")
+            elif st_ == "reject" and case["requests"][last]["nonfatal"]:
+                ctx.violation(f"phase:nonfatal-failure-failed-build:{h}{ext}", case,
+                              f"request #{last} is nonfatal, build failed with {type(raised).__name__}: {raised}")
         if raised is not None and not released and not proc.shutdowns:
             ctx.violation("phase:processor-not-shut-down", case, "build failed but the processor was neither shut down nor released")
     finally:
@@ -530,10 +543,22 @@ def _readline(f, timeout):
     return f.readline()
 
 
+def _blocked_on_pipe(pid):
+    """True if the process sleeps in a pipe read (a real protocol deadlock), False if it is merely starved/busy"""
+    try:
+        with open(f"/proc/{pid}/wchan") as f:
+            w = f.read()
+        with open(f"/proc/{pid}/stat") as f:
+            state = f.read().rsplit(")", 1)[1].split()[0]
+    except OSError:
+        return False
+    return state == "S" and "pipe" in w
+
+
 class PipeProc:
     """read()/write() with EbuildProcessor semantics on two pipes"""
 
-    def __init__(self, rf, wf, timeout=30):
+    def __init__(self, rf, wf, timeout=120):
         self.ebd_read, self.ebd_write, self.timeout = rf, wf, timeout
         self.sent = []
 
@@ -580,6 +605,7 @@ def run_bash_layer(ctx, case):
         served = 0
         sentinel_ok = None
         stopped_by = None
+        pipe_broken = False
         try:
             while True:
                 line = pp_.read().strip()
@@ -597,11 +623,10 @@ def run_bash_layer(ctx, case):
                 expects.append(expectation(req, case["eapi"], w.W, w.ED, before))
                 served += 1
                 try:
-                    core.guarded(ctx, case, lambda: w.H[cmd](pp_), expected=(ebd_ipc.IpcError, Timeout))
+                    core.guarded(ctx, case, lambda: w.H[cmd](pp_), expected=(ebd_ipc.IpcError, Timeout, BrokenPipeError))
                 except ebd_ipc.IpcInternalError as e:
                     b, m = internal_bucket(case, served - 1, e, None, True)
                     ctx.violation(b, case, m)
-                    pp_.write(e.ret)
                     stopped_by = e
                     break
                 except ebd_ipc.IpcError as e:
@@ -610,65 +635,98 @@ def run_bash_layer(ctx, case):
                     break
                 finally:
                     os.chdir(old)
+        except BrokenPipeError:
+            pipe_broken = True  # bash went away while a reply was being written
         except Timeout:
-            ctx.violation("bash:hang", case, f"no line from bash within the timeout after serving {served} requests")
-            return
-        try:
-            proc.wait(timeout=30)
-        except subprocess.TimeoutExpired:
-            ctx.violation("bash:hang", case, "bash did not finish (blocked reading a reply?)")
-            return
+            if proc.poll() is not None:
+                pipe_broken = True
+            elif _blocked_on_pipe(proc.pid):
+                ctx.violation("bash:hang", case, f"bash is blocked reading the channel after {served} served requests "
+                                                 f"(python is waiting for its next line too)")
+                return
+            else:
+                ctx.count("bash_timeout_inconclusive")
+                return
+        if isinstance(stopped_by, ebd_ipc.IpcInternalError):
+            return  # reported above; the real processor is killed at this point (finally: kills bash)
+        multiline = any("\n" in s_ for s_ in pp_.sent)
+
+        def anomaly(bucket, msg):
+            # once a reply spanning lines went out, every later oddity on the bash side is that desync
+            ctx.violation("bash:desync-after-multiline-reply" if multiline else bucket, case, msg)
+
+        # wait for bash; a bash that sleeps in a pipe read while python has stopped serving will never finish
+        waited = 0.0
+        while proc.poll() is None:
+            if waited > 2.0 and _blocked_on_pipe(proc.pid):
+                if stopped_by is not None:
+                    h = case["requests"][served - 1]["helper"]
+                    ext = ":external-install" if expects[served - 1][2] else ""
+                    anomaly(f"bash:fatal-failure-not-fatal:{h}{ext}",
+                            f"request #{served - 1}: python failed the build ({stopped_by!r}, reply {pp_.sent[-1]!r}) "
+                            f"but bash carried on and now waits for the next reply")
+                else:
+                    anomaly("bash:hang", "bash did not finish: blocked reading a reply that never comes")
+                return
+            if waited > 120:
+                ctx.count("bash_timeout_inconclusive")
+                return
+            try:
+                proc.wait(timeout=0.25)
+            except subprocess.TimeoutExpired:
+                waited += 0.25
         status_lines = []
         sp = os.path.join(outdir, "status")
         if os.path.exists(sp):
             with open(sp, errors="replace") as f:
                 status_lines = f.read().splitlines()
-        if isinstance(stopped_by, ebd_ipc.IpcInternalError):
-            return
         seen = {}
         for ln in status_lines:
             parts = ln.split(" ")
             if parts[0] == "REQ" and len(parts) == 3:
                 seen[int(parts[1])] = int(parts[2])
         died = [ln for ln in status_lines if ln.startswith("DIE ")]
+        for i, s_ in enumerate(pp_.sent[:served]):
+            check_reply_text(ctx, case, min(i, len(case["requests"]) - 1), s_, "sent to bash")
         for i in range(served):
             req = case["requests"][i]
             st_, entries, external = expects[i]
             h = req["helper"]
             ext = ":external-install" if external else ""
+            sent_i = pp_.sent[i] if i < len(pp_.sent) else None
             if st_ == "either":
                 continue
             is_last_fatal = stopped_by is not None and i == served - 1
             if is_last_fatal:
                 if st_ == "ok":
-                    ctx.violation(f"bash:false-failure:{h}{ext}", case, f"request #{i} valid but python raised {stopped_by!r}")
+                    anomaly(f"bash:false-failure:{h}{ext}", f"request #{i} valid but python raised {stopped_by!r}")
                 elif not died:
-                    ctx.violation(f"bash:fatal-failure-not-fatal:{h}{ext}", case,
-                                  f"request #{i}: error reply {pp_.sent[-1]!r} did not make bash die; status={status_lines!r}")
+                    anomaly(f"bash:fatal-failure-not-fatal:{h}{ext}",
+                            f"request #{i}: error reply {sent_i!r} did not make bash die; status={status_lines!r}")
                 continue
             if i not in seen:
-                ctx.violation(f"bash:request-lost:{h}{ext}", case, f"request #{i} has no status; status={status_lines!r} died={died!r}")
-                continue
+                if died and (st_ == "ok" or req["nonfatal"]):
+                    anomaly(f"bash:died-on-request:{h}{ext}",
+                            f"request #{i} ({'valid' if st_ == 'ok' else 'nonfatal'}) made bash die: {died!r}; python sent {sent_i!r}")
+                elif not died:
+                    anomaly(f"bash:request-lost:{h}{ext}", f"request #{i} has no status; status={status_lines!r}")
+                break
             rc = seen[i]
             if st_ == "ok" and rc != 0:
-                ctx.violation(f"bash:false-failure:{h}{ext}", case,
-                              f"request #{i} valid, bash saw exit {rc}; python sent {pp_.sent[i] if i < len(pp_.sent) else None!r}")
+                anomaly(f"bash:false-failure:{h}{ext}", f"request #{i} valid, bash saw exit {rc}; python sent {sent_i!r}")
             elif st_ == "reject" and rc == 0:
-                ctx.violation(f"bash:false-success:{h}{ext}", case,
-                              f"request #{i} must fail, bash saw exit 0; python sent {pp_.sent[i] if i < len(pp_.sent) else None!r}")
+                anomaly(f"bash:false-success:{h}{ext}", f"request #{i} must fail, bash saw exit 0; python sent {sent_i!r}")
             elif st_ == "ok":
                 missing = effect_present(entries or {}, w.ED)
                 if missing:
-                    ctx.violation(f"bash:success-without-effect:{h}{ext}", case, f"request #{i}: missing {missing[:3]}")
-        for i, s in enumerate(pp_.sent[:served]):
-            check_reply_text(ctx, case, min(i, len(case["requests"]) - 1), s, "sent to bash")
-        if stopped_by is None:
+                    anomaly(f"bash:success-without-effect:{h}{ext}", f"request #{i}: missing {missing[:3]}")
+        if stopped_by is None and not pipe_broken:
             if sentinel_ok is not True:
-                ctx.violation("bash:desync:sentinel", case, f"sentinel not received intact after {served} requests")
+                anomaly("bash:desync:sentinel", f"sentinel not received intact after {served} requests")
             elif "ACK ack-4711" not in status_lines:
-                ctx.violation("bash:desync:ack", case, f"bash did not read the acknowledgement as the next line: {status_lines[-3:]!r}")
-            if proc.returncode != 0 and not died:
-                ctx.violation("bash:exit", case, f"bash exited {proc.returncode}; status={status_lines[-3:]!r}")
+                anomaly("bash:desync:ack", f"bash did not read the acknowledgement as the next line: {status_lines[-3:]!r}")
+            elif proc.returncode != 0 and not died:
+                anomaly("bash:exit", f"bash exited {proc.returncode}; status={status_lines[-3:]!r}")
     finally:
         for fd in (p2b_r, p2b_w, b2p_r, b2p_w):
             if fd is not None:
@@ -856,12 +914,13 @@ def run_stream(ctx, case, record=True):
 def plan(tier, seed):
     tasks = []
     if tier == "quick":
+        # every external-install / patch request costs a fork+exec: keep the quick tier small
         for i in range(6):
-            tasks.append({"task": "streams", "layer": "inproc", "examples": 100, "salt": i})
-        for i in range(3):
-            tasks.append({"task": "streams", "layer": "phase", "examples": 80, "salt": 10 + i})
+            tasks.append({"task": "streams", "layer": "inproc", "examples": 50, "salt": i})
+        for i in range(4):
+            tasks.append({"task": "streams", "layer": "phase", "examples": 30, "salt": 10 + i})
         for i in range(6):
-            tasks.append({"task": "streams", "layer": "bash", "examples": 12, "salt": 20 + i})
+            tasks.append({"task": "streams", "layer": "bash", "examples": 8, "salt": 20 + i})
     else:
         for i in range(8):
             tasks.append({"task": "streams", "layer": "inproc", "examples": 1500, "salt": i})
@@ -877,7 +936,7 @@ def run_task(ctx, task, **kw):
         raise core.HarnessError(f"unknown task {task}")
     try:
         vebd.ensure_generated()
-        core.hyp_run(ctx, stream(layer=kw["layer"]), lambda c: run_stream(ctx, c), kw["examples"],
+        core.hyp_run(ctx, stream(layer=kw["layer"]), lambda c: ctx.out_of_time() or run_stream(ctx, c), kw["examples"],
                      chunk=50 if kw["layer"] != "bash" else 10, seed_salt=kw.get("salt", 0))
     finally:
         H33.cleanup_fast()
